@@ -10,6 +10,7 @@ func vh_EL() {
 		states: []State{Follower, PreCandidate, Candidate, Leader, Shutdown}, members: "any"})
 	r := n.r
 	recent := vSetContact(r, "c")
+	vAssume(n.log.LastTerm() <= r.currentTerm) // N1
 	// N4: a leader voted for itself in its term
 	vAssume(vImplies(r.state == Leader, r.votedFor == "n1"))
 	// N4': a candidate voted for itself (it entered the term through becomeCandidate) unless it has
@@ -30,6 +31,9 @@ func vh_EL() {
 	vDrain()
 	post := vSnapshotNode(n)
 
+	if r.state != Shutdown {
+		vCheckInv(n, true, true)
+	}
 	vAssert(post.term >= pre.term, "C08.termMono")
 	vAssert(vAnd(midDurTerm == midTerm, midDurVote == r.votedFor), "C02|C08.persisted-before-any-send(N3)")
 	vAssert(vAnd(post.logLen >= pre.logLen, post.commit == pre.commit), "C01|C07.election-no-log-loss")
